@@ -848,3 +848,43 @@ func knownCondsBoth(b *ssa.BasicBlock, depth int) (out []ssa.Value, negs []ssa.V
 	}
 	return out, negs
 }
+
+// c08contentLengthReadOnly (C08.R17, round 8): the request-side adapter decides from r.ContentLength whether there is
+// a JSON body to validate (httpx.withJsonBody). No function of the module writes http.Request.ContentLength: a
+// middleware that "corrects" it (after swapping in a decompressing reader, say) makes the adapter skip the body — its
+// members are never range- or option-checked and the target keeps its zero values.
+func c08contentLengthReadOnly(c *Ctx) {
+	rule := "C08.R17"
+	var bad []string
+	reads := 0
+	for _, pk := range c.P.Pkgs {
+		rel := strings.TrimPrefix(pk.PkgPath, mod)
+		for _, f := range c.P.AllFuncs(rel) {
+			for _, b := range f.Blocks {
+				for _, ins := range b.Instrs {
+					fa, ok := ins.(*ssa.FieldAddr)
+					if !ok {
+						continue
+					}
+					pt, ok := fa.X.Type().Underlying().(*types.Pointer)
+					if !ok || typeString(pt.Elem()) != "net/http.Request" || fieldNameAt(fa.X.Type(), fa.Field) != "ContentLength" {
+						continue
+					}
+					reads++
+					for _, r := range *fa.Referrers() {
+						// the request a handler was handed (a parameter), not one the function builds for an outgoing call
+						if _, isParam := fa.X.(*ssa.Parameter); !isParam {
+							continue
+						}
+						if st, ok := r.(*ssa.Store); ok && st.Addr == ssa.Value(fa) {
+							bad = append(bad, fmt.Sprintf("%s: %s writes r.ContentLength", c.P.Pos(st.Pos()), funcDisplay(f)))
+						}
+					}
+				}
+			}
+		}
+	}
+	sort.Strings(bad)
+	o := c.R.Check(len(bad) == 0 && reads >= 2, rule, "module#request-content-length", "no function of the module writes the ContentLength of a request it was handed (the adapters decide from it whether a body is to be parsed and validated)", "-", fmt.Sprintf("%d uses; %s", reads, strings.Join(bad, "; ")), bad, reads)
+	o.Sites = reads
+}
